@@ -354,6 +354,29 @@ def run(ctx):
                     else:
                         o.holds(pf, body[0], f"partition(lst, n) = consecutive n-chunks of the whole list")
                     ok = True
+            if not ok and len(body) == 1 and isinstance(body[0], ast.Return) and len(pf.params) == 3:
+                # `[lst[i:i + n] for i in range(K)]`: a unit-step index with a width-n slice gives OVERLAPPING windows, not chunks
+                lst, n_ = pf.params[1], pf.params[2]
+                b1 = match(pat(f"[{lst}[$i:$hi] for $i in range($stop)]"), body[0].value) or match(pat(f"[{lst}[$i:$hi] for $i in range(0, $stop)]"), body[0].value)
+                if b1 is not None and tm.compare(tm.sub(rules.term_of(b1["hi"], Scope(pf.node)), tm.sym(txt(b1["i"]))), tm.sym(n_)) == "equal":
+                    o.violated(pf, body[0], f"partition slices `{lst}[i:i + {n_}]` for CONSECUTIVE i (`{txt(body[0].value.generators[0].iter)}`): the chunks overlap (each stub but the first "
+                                            f"appears in up to {n_} of them) and the tail of the list is never used", shape_free=True)
+                    ok = True
+            if not ok and len(body) == 1 and isinstance(body[0], ast.Return) and len(pf.params) == 3:
+                # the chunking idiom is n references to ONE iterator (`zip(*[iter(lst)] * n)`); n INDEPENDENT iterators
+                # (`zip(*[iter(lst) for _ in range(n)])`, `zip(*[lst] * n)`) walk the list in lock-step: every element n times
+                lst, n_ = pf.params[1], pf.params[2]
+                v0 = body[0].value
+                inner = v0.args[0] if isinstance(v0, ast.Call) and txt(v0.func) in ("list", "tuple") and len(v0.args) == 1 else v0
+                if isinstance(inner, ast.Call) and txt(inner.func) in ("zip", "itertools.zip_longest", "zip_longest") and len(inner.args) == 1 and isinstance(inner.args[0], ast.Starred):
+                    star = inner.args[0].value
+                    fresh = (isinstance(star, (ast.ListComp, ast.GeneratorExp)) and txt(star.elt) in (f"iter({lst})", lst) and len(star.generators) == 1
+                             and txt(star.generators[0].iter) in (f"range({n_})", f"range(0, {n_})")) \
+                        or (isinstance(star, ast.BinOp) and isinstance(star.op, ast.Mult) and txt(star.left) == f"[{lst}]" and txt(star.right) == n_)
+                    if fresh:
+                        o.violated(pf, body[0], f"`{txt(v0)[:70]}` zips {n_} INDEPENDENT walks of `{lst}`: each group is one stub repeated {n_} times and there are len(lst) groups, "
+                                                f"not consecutive chunks of {n_} different stubs", shape_free=True)
+                        ok = True
             if not ok:
                 o.undecided("partition body not recognised", pf)
         # partition loop
@@ -404,6 +427,10 @@ def run(ctx):
             o.violated(fn, kl.iter, f"the per-motif loop `{txt(kl.iter)}` does not run once per motif from 0")
         else:
             t = rules.term_of(kl.iter.args[0], g.sc, keep=[g.stubs, part_name or ""])
+            # `range(max(0, n))` is `range(n)`: a negative bound is an empty range already
+            a_t = tm.single_atom(t)
+            if a_t is not None and a_t[0] == "call" and a_t[1] == "max" and len(a_t) == 3 and len(a_t[2]) == 2 and tm.ZERO in a_t[2]:
+                t = a_t[2][0] if a_t[2][1] == tm.ZERO else a_t[2][1]
             refs = [tm.parse(f"int(len({g.stubs}[{orbits}[0]]) / self._motif_sizes[{orbits}[0]])"),
                     tm.parse(f"int(len({g.stubs}[{orbits}[0]]) // self._motif_sizes[{orbits}[0]])"),
                     tm.Translator().tr(ast.parse(f"len({g.stubs}[{orbits}[0]]) // self._motif_sizes[{orbits}[0]]", mode="eval").body)]
@@ -667,6 +694,24 @@ def run(ctx):
             o.undecided("load_gcm_algorithm does not return GCMAlgorithmFactory.resolve_algorithm(GCMAlgorithmTypes(params[GCM_TYPE]), params)", lf)
 
     # ------------------------------------------------------------------ C01.9
+    with ctx.obligation("C01.9", "built-in build callbacks use the vertices as they are handed over (order and repetitions kept)") as o:
+        # the group a builder receives is in SHUFFLED slot order and may name a vertex twice: re-binding the parameter to a
+        # sorted / de-duplicated / reversed copy changes which vertex takes which role (and drops repeated stubs)
+        for bn in ("clique_motif", "cycle_motif", "diamond_motif"):
+            bf = prog.func(bn)
+            if bf is None or not bf.params:
+                continue
+            pv = bf.params[0]
+            hits = [n for n in astx.walk_fn(bf.node) if isinstance(n, ast.Assign) and any(isinstance(t_, ast.Name) and t_.id == pv for t_ in n.targets)
+                    and isinstance(n.value, ast.Call) and txt(n.value.func) in ("sorted", "set", "frozenset", "reversed", "list", "tuple", "dict.fromkeys")
+                    and any(isinstance(x, ast.Call) and txt(x.func) in ("sorted", "set", "frozenset", "reversed", "dict.fromkeys") for x in ast.walk(n.value))]
+            hits += [n for n in astx.walk_fn(bf.node) if isinstance(n, ast.Call) and isinstance(n.func, ast.Attribute) and n.func.attr in ("sort", "reverse") and txt(n.func.value) == pv]
+            if hits:
+                o.violated(bf, hits[0], f"`{txt(hits[0])[:60]}` re-orders / de-duplicates the vertices `{bn}` was handed: the shuffled slot order decides which vertex takes which place in the "
+                                        "motif, and a vertex drawn twice must stay twice", shape_free=True)
+            else:
+                o.holds(bf, bf.node, f"{bn} does not re-bind or re-order its argument", construct="scan of the builder")
+
     with ctx.obligation("C01.9", "built-in build callbacks return pairs over exactly their argument", floor=3) as o:
         cf = prog.func("clique_motif")
         v = cf.params[0]
@@ -681,6 +726,20 @@ def run(ctx):
             o.violated(cf, rv, f"combinations(.., {txt(b['k'])}) does not produce vertex pairs (edges)")
         else:
             o.holds(cf, rv, "all 2-subsets of the argument")
+        # an edge is ONE element of the returned list: `edges.extend((a, b))` unpacks the pair into two bare vertex ids
+        for bn_ in ("clique_motif", "cycle_motif", "diamond_motif"):
+            bf_ = prog.func(bn_)
+            for n_ in [n for n in astx.walk_fn(bf_.node) if isinstance(n, ast.Call) and isinstance(n.func, ast.Attribute) and n.func.attr == "extend" and len(n.args) == 1]:
+                a_ = n_.args[0]
+                if isinstance(a_, (ast.Tuple, ast.List)) and a_.elts and not any(isinstance(e_, (ast.Tuple, ast.List, ast.Starred, ast.Call, ast.Name)) for e_ in a_.elts):
+                    o.violated(bf_, n_, f"`{txt(n_)[:60]}` unpacks the pair: two bare vertex ids are added to the edge list instead of one edge "
+                                        "(the caller sizes the name and id columns by len() of what comes back)", shape_free=True)
+            # (the normaliser spells extend((a, b)) as two appends)
+            for n_ in [n for n in astx.walk_fn(bf_.node) if isinstance(n, ast.Call) and isinstance(n.func, ast.Attribute) and n.func.attr == "append" and len(n.args) == 1]:
+                a_ = n_.args[0]
+                if isinstance(a_, ast.Subscript) and isinstance(a_.value, ast.Name) and a_.value.id == bf_.params[0] and not isinstance(a_.slice, ast.Slice):
+                    o.violated(bf_, n_, f"`{txt(n_)[:60]}` adds a bare vertex id to the edge list, not an edge (a pair): "
+                                        "the caller sizes the name and id columns by len() of what comes back", shape_free=True)
         # cycle motif
         cy = prog.func("cycle_motif")
         v = cy.params[0]
